@@ -65,7 +65,7 @@ theorem assignTargets_establish (vars : VarList) (es : ExprList) (σ : St) (inF 
     have main : ∀ (σ₁ : St) (es' : ExprList), Rel σ₁.stack σ₁.fdepth inF env → Inv σ₁ →
         Good n (match v with
           | .name t => assignTargets (σ₁.hoist t) rest es'
-          | .expr _ _ _ => assignTargets (eagerV σ₁ v) rest es') := by
+          | .expr _ _ _ => assignTargets (eagerVT σ₁ v) rest es') := by
       intro σ₁ es' r1 i1
       cases v with
       | name t =>
@@ -83,7 +83,7 @@ theorem assignTargets_establish (vars : VarList) (es : ExprList) (σ : St) (inF 
             · exact h
           exact assignTargets_establish rest es' _ inF env rg (g.safe.inv i1) n hn hm hl
       | expr vsp p ss =>
-        have h := eagerV_pure σ₁ (.expr vsp p ss) r1
+        have h := eagerVT_pure σ₁ (.expr vsp p ss) r1
         exact assignTargets_establish rest es' _ inF env (h.rel r1) (h.safe.inv i1) n hn (by simpa [varNames] using hmem) hl
     cases es with
     | nil =>
